@@ -360,7 +360,7 @@ class CallMixin:
                 if m is not None:
                     decos = [ast.unparse(d) for d in m.decorator_list]
                     if "property" in decos:
-                        if st.spec:
+                        if st.spec and f"{mod.dotted}:{owner}.{attr}" not in self.reg.funs:
                             return self.inline_property_spec(mod, owner, m, v, st)
                         return self.call_function(f"{mod.dotted}:{owner}.{attr}", [v], {}, st, node)
                     return [(st, SV(CONST, None, None, extra=("method", f"{mod.dotted}:{owner}.{attr}", v)))]
@@ -477,6 +477,9 @@ class CallMixin:
                 ex0 = getattr(fv0, "extra", None)
                 if isinstance(ex0, tuple) and ex0[0] == "extmethod":
                     ok = bool(self.reg.funs[ex0[1]].types.get("__ignore_starargs__"))
+                elif isinstance(ex0, tuple) and ex0[0] == "external":
+                    fs0 = self.reg.funs.get(f"ext:{ex0[1]}")
+                    ok = fs0 is not None and bool(fs0.types.get("__ignore_starargs__"))
             if not ok:
                 raise EngineError(f"star-args in call: {ast.unparse(e)}")
             return self.ev_Call(e2, st)
